@@ -35,6 +35,23 @@ Theorem C06_state_no_regression : forall c vg items h,
 Proof. exact state_report_no_regression. Qed.
 Print Assumptions C06_state_no_regression.
 
+(* the same for context reports *)
+Theorem C06_context_no_regression : forall c vg items h,
+  let c' := fst (process c (RCtx vg items)) in
+  (forall s', cm_cstates c' h = Some s' ->
+      (cm_cstates c h = Some s' \/ In (h, s') items) /\
+      (forall s, cm_cstates c h = Some s -> c_ver s <= c_ver s')) /\
+  (forall s, cm_cstates c h = Some s -> exists s', cm_cstates c' h = Some s').
+Proof. exact ctx_report_no_regression. Qed.
+Print Assumptions C06_context_no_regression.
+
+Theorem C06_context_duplicate_noop : forall c vg items,
+  cm_ver c <= vg_ver vg ->
+  (forall h s, In (h, s) items -> exists o, cm_cstates c h = Some o /\ c_ver s <= c_ver o) ->
+  process c (RCtx vg items) = (set_vg c vg, []).
+Proof. exact duplicate_ctx_report_noop. Qed.
+Print Assumptions C06_context_duplicate_noop.
+
 (* a change of SequenceId or InstanceId invalidates the consumer ... *)
 Theorem C06_seq_change_invalidates : forall c r,
   cm_mode c = CInitialized ->
